@@ -81,6 +81,7 @@ type Obligation struct {
 	Query   string
 	known   string
 	candidate string
+	replay  *replayResult
 	// case split: conditions (return sites) whose disjunction is the guard; when the obligation as a whole
 	// is not decided it is proved once per case (each case adds its condition as a hypothesis)
 	Cases []string
@@ -127,6 +128,9 @@ type VC struct {
 	writeLog    []writeRec
 	indexTerms  []string     // non-constant slice index terms of the executed code (instantiation hints)
 	readLogs    []*[]readRec // active macro expansions: which state components their bodies read
+	targetFn    *ssa.Function // the function under verification, its parameter values and merged results (replay)
+	paramVals   []Val
+	resultVals  []Val
 	calleeSl    map[string]bool
 	retConds    []string     // reach conditions of the return sites of the function under verification (depth 0)
 	catchStack  []*catchCtx // functions with a deferred recover() that are being executed (innermost last)
